@@ -12,6 +12,8 @@ for d in sorted(glob.glob("/verif/seeded/*/")):
     if flt and flt not in name: continue
     meta=json.load(open(d+"meta.json"))
     props=[meta["property"]]+meta.get("also",[])
+    if meta.get("obsolete"):
+        rows.append((name,"OBSOLETE (see meta.json)")); continue
     if subprocess.run(["git","-C","/repo","apply",d+"patch.diff"]).returncode!=0:
         rows.append((name,"PATCH DOES NOT APPLY")); continue
     det=[]
